@@ -284,3 +284,77 @@ def run(ctx, rep, tier):
     rsrc = ast.unparse(rf)
     rep.check("cls._flags = {x: x.default for x in ProgramFlag}" in rsrc and "cls._options = {x: x.default for x in ProgramOption}" in rsrc, "C19.a", "ProgramData._reset_flags",
               "flags and options reset to their declared defaults", "reset no longer restores declared defaults")
+
+
+# ---------------------------------------------------------------------------------------------------------------- C19.g
+def _single_writer(ctx, rep, tier):
+    """C19.g: the argument loop is order-independent for *different* options iff no resolved configuration variable is written by two
+    different option arms (last writer wins = the result depends on the order). Configuration variables = names the loop assigns that are
+    read after the loop or returned, and class attributes. Arms = the filename arm and the arms of the `option_name` dispatch."""
+    model = ctx.model
+    fn = model.func(LCF)
+    body = strip_doc(fn.body)
+    loop = next((st for st in body if isinstance(st, ast.For) and "all_cmd_options" in ast.unparse(st.iter)), None)
+    if loop is None:
+        raise AnalysisError("C19.g: argument loop not found")
+    rep.rule("C19.g", "no configuration variable is written by two different option arms of the argument loop (order independence); the output-name arm refuses an empty value")
+    after = body[body.index(loop) + 1:]
+    read_after = {n.id for st in after for n in ast.walk(st) if isinstance(n, ast.Name) and isinstance(n.ctx, ast.Load)}
+
+    def arms_of(stmts, label):
+        """yield (arm label, statements) for the option dispatch; statements outside any dispatch belong to `label`."""
+        for st in stmts:
+            if isinstance(st, ast.If):
+                t = ast.unparse(st.test)
+                if re.match(r"option_name (in|==) ", t) or t.startswith("option[0] != '-'") or t.startswith("option[1] == '-'"):
+                    yield from arms_of(st.body, t)
+                    if st.orelse:
+                        yield from arms_of(st.orelse, "else of " + t if not (len(st.orelse) == 1 and isinstance(st.orelse[0], ast.If)) else label)
+                    continue
+            if isinstance(st, ast.Try):
+                yield from arms_of(st.body, label)
+                continue
+            yield label, st
+    writers = {}
+    for arm, st in arms_of(loop.body, "<loop>"):
+        for n in ast.walk(st):
+            tgts = []
+            if isinstance(n, ast.Assign):
+                tgts = n.targets
+            elif isinstance(n, (ast.AugAssign, ast.AnnAssign)):
+                tgts = [n.target]
+            for t in tgts:
+                for e in (t.elts if isinstance(t, ast.Tuple) else [t]):
+                    name = None
+                    if isinstance(e, ast.Name) and e.id in read_after:
+                        name = e.id
+                    elif isinstance(e, ast.Attribute) and isinstance(e.value, ast.Name) and e.value.id == "cls":
+                        name = "cls." + e.attr
+                    if name:
+                        # a write guarded by "not set yet" does not override
+                        guarded = False
+                        x = n
+                        while x in model.parents and x is not loop:
+                            x = model.parents[x]
+                            if isinstance(x, ast.If) and re.fullmatch(r"%s is None" % re.escape(name), ast.unparse(x.test)):
+                                guarded = True
+                        if not guarded:
+                            writers.setdefault(name, set()).add(arm)
+    if len(writers) < 4:
+        raise AnalysisError(f"C19.g: only {len(writers)} configuration variables found in the argument loop (floor 4)")
+    for name, arms in sorted(writers.items()):
+        rep.check(len(arms) == 1, "C19.g", LCF, f"`{name}` is set by one option arm only", f"`{name}` is written by {len(arms)} different option arms ({sorted(arms)}): whichever comes last on the "
+                  "command line wins, so the configuration depends on the order of different options (e.g. -o<name> before the input file was overwritten by the name derived from the file)")
+    # the explicit output name is validated
+    out_arm = [st for st in ast.walk(loop) if isinstance(st, ast.If) and re.match(r"option_name in \['o', 'output'\]", ast.unparse(st.test))]
+    ok = bool(out_arm) and any(isinstance(i, ast.If) and ast.unparse(i.test) in ("not option_value", "option_value == ''", "len(option_value) == 0") and isinstance(i.body[-1], ast.Raise)
+                              for i in out_arm[0].body)
+    rep.check(ok, "C19.g", LCF, "an empty output name is refused", "`-o` with an empty value is accepted: the malformed option is silently replaced by the default name")
+
+
+_run_g = run
+
+
+def run(ctx, rep, tier):
+    _run_g(ctx, rep, tier)
+    _single_writer(ctx, rep, tier)
